@@ -4,6 +4,10 @@ CLAIMS = {
   technique='bounded symbolic execution (CBMC/SAT) of the real calc_chksum lowered from LLVM IR; word loop decided by a solver-checked loop invariant (base/step/exit) on an IR-level loop cut',
   text='The real Message::calc_chksum (clang IR -> ir2c -> CBMC) is proved equal to the byte sum mod 256 of exactly the requested range, with all loads inside that range, for every buffer size <= 65536, every offset/len and every content: the 4-byte word loop is cut at its header and the solver discharges base, step and exit of a lane-wise invariant, the <=7-iteration tail is unrolled. A bounded query on the uncut function (all contents, sizes <= 7/9) cross-checks the cut. Any counterexample is replayed on the native ASan build before it is reported.',
   note='Assumes x86-64 (unaligned loads defined), the 64-bit branch compiled here, malloc never failing; the invariant binds loop variables by -g debug names - if the loop shape changes the inductive harness is reported inconclusive and a structured bounded search (lengths 1100..8192) looks for a concrete failing buffer.'),
+ 'C10': dict(
+  technique='bounded symbolic execution (CBMC/SAT) of the real RealmBase::get_rlm_idx/is_valid templates lowered from LLVM IR, over symbolic sorted tables and probe values',
+  text='For char, int and double realms the real lookup code (including the inlined std::lower_bound/binary_search) is executed symbolically on ANY strictly ascending table of up to 8 (thorough 16) entries and ANY probe value; the solver shows that a reported index is inside the table and belongs to exactly the probed value, members are reported at their own position, and validity equals membership (sets) or inclusion (ranges), with bounds checks on a table object that ends at its last entry. Counterexamples are replayed on the native ASan build.',
+  note='Tables are assumed sorted and duplicate-free (f8c output); NaN excluded; f8String realms use the same template but are not encoded (out-of-line std::string compare); range realms: only is_valid is claimed.'),
 }
 NOT_APPLICABLE = {
  'C13': 'deciding it means running f8c and compiling and executing the C++ it generates: the object of the property is a program produced at run time, there is no fixed function to encode symbolically (DESIGN.md section 6)',
